@@ -3,6 +3,7 @@ package main
 import (
 	"fmt"
 	"go/token"
+	"go/types"
 	"strings"
 
 	"golang.org/x/tools/go/ssa"
@@ -20,6 +21,7 @@ func init() {
 			ma.ruleR15(c)
 			ruleO2(c)
 			ruleV4(c)
+			ma.ruleR14n(c)
 		},
 		explanation: "Decides that the request object shown to plugins is kept in step with the combined result: every accepted write into the reply has a twin write of the same item and value into the request view (and vice versa); removed and re-set keys are dropped from the view before new entries are appended; lists in the view only grow by append; the result constructors keep the caller's request pointer (identity, not a copy) and only replace nil members by empty ones; the request methods hand that same request object to every plugin in one sequential loop; for update requests the committed resources are written back to the request exactly when the update targets the container being updated.",
 		notDecided: []string{
@@ -249,4 +251,149 @@ func ruleO2(c *Ctx) {
 	for r := range relays {
 		c.ok("O2", "used/"+r.Name(), r.Pos(), seen[r], "relay "+r.Name()+" is driven by a request method", "relay is never called")
 	}
+}
+
+// ruleR14n: everything the merge functions write through is initialised by the constructors.
+func (ma *mergeAnalysis) ruleR14n(c *Ctx) {
+	m := c.M
+	c.rule("R14n", "initialised before written through: every pointer- or map-typed member of the request view and of the reply accumulator that a merge function writes through (request.Container.Linux.Resources.Memory.Limit needs Linux, Resources and Memory; Unified[k] needs the map) is set to a non-nil value by the result constructor (or by the accumulator literal of getContainerUpdate) — otherwise the first plugin touching it crashes the runtime with a nil dereference or a write to a nil map", 10)
+	// initialised paths
+	initView := map[string]bool{}   // relative to request.create / request.update
+	initReply := map[string]bool{}  // relative to reply
+	initAcc := map[string]bool{}    // accumulator literal in getContainerUpdate, relative to the ContainerUpdate
+	for _, name := range []string{"collectCreateContainerResult", "collectUpdateContainerResult"} {
+		f := m.fn(pkgAdapt, name)
+		for _, b := range f.Blocks {
+			for _, in := range b.Instrs {
+				if st, ok := in.(*ssa.Store); ok && !isNilConst(st.Val) {
+					a := m.ap(st.Addr)
+					if a.Root == ssa.Value(f.Params[0]) {
+						initView[name[7:13]+":"+a.PathString()] = true
+					}
+				}
+			}
+		}
+		for _, fl := range m.fieldFlows(f) {
+			if strings.HasPrefix(fl.Path, "reply.") && !isNilConst(fl.Val) {
+				initReply[strings.TrimPrefix(fl.Path, "reply.")] = true
+			}
+		}
+		// nested literals: the flattened flows only list leaves; add every prefix of an initialised leaf
+	}
+	gcu := m.method(pkgAdapt, "result", "getContainerUpdate")
+	for _, fl := range m.fieldFlows(gcu) {
+		initAcc[fl.Path] = true
+	}
+	addPrefixes := func(set map[string]bool) {
+		for k := range set {
+			parts := strings.Split(k, ".")
+			for i := 1; i < len(parts); i++ {
+				set[strings.Join(parts[:i], ".")] = true
+			}
+		}
+	}
+	addPrefixes(initReply)
+	addPrefixes(initAcc)
+	// also composite literal members that are themselves fresh objects (stores of allocs are skipped by fieldFlows)
+	for _, f := range []*ssa.Function{m.fn(pkgAdapt, "collectCreateContainerResult"), m.fn(pkgAdapt, "collectUpdateContainerResult"), gcu} {
+		st := &ffState{m: m, memo: map[ssa.Value]*place{}, busy: map[ssa.Value]bool{}}
+		for _, b := range f.Blocks {
+			for _, in := range b.Instrs {
+				s2, ok := in.(*ssa.Store)
+				if !ok || !isNestedValue(s2.Val) {
+					continue
+				}
+				if p := st.placeOf(s2.Addr); p != nil && len(p.path) > 0 {
+					path := strings.Join(p.path, ".")
+					if strings.HasPrefix(path, "reply.") {
+						initReply[strings.TrimPrefix(path, "reply.")] = true
+					} else if f == gcu {
+						initAcc[path] = true
+					}
+				}
+			}
+		}
+	}
+	// members the constructor itself reads through without initialising are the runtime's precondition
+	readThrough := map[string]bool{}
+	for _, name := range []string{"collectCreateContainerResult", "collectUpdateContainerResult"} {
+		f := m.fn(pkgAdapt, name)
+		for _, b := range f.Blocks {
+			for _, in := range b.Instrs {
+				if fa, ok := in.(*ssa.FieldAddr); ok {
+					a := m.ap(fa.X)
+					if a.Root == ssa.Value(f.Params[0]) && len(a.Path) > 0 {
+						readThrough[name[7:13]+":"+a.PathString()] = true
+					}
+				}
+			}
+		}
+	}
+	seen := map[string]bool{}
+	for _, mf := range ma.fns {
+		for _, w := range mf.writes {
+			var rel []string
+			var set map[string]bool
+			var where, pfx string
+			switch {
+			case w.space == "view" && len(w.target.Path) > 2 && w.target.Path[1] == "create":
+				rel, set, where, pfx = w.target.Path[2:], initView, "collectCreateContainerResult", "Create:"
+			case w.space == "view" && len(w.target.Path) > 2 && w.target.Path[1] == "update":
+				rel, set, where, pfx = w.target.Path[2:], initView, "collectUpdateContainerResult", "Update:"
+			case w.space == "reply":
+				rel, set, where = w.target.Path[1:], initReply, "collectCreateContainerResult (reply literal)"
+			case w.space == "staged":
+				// the staged copy comes from the request's resources or from an accumulator: both must have the member
+				rel = nil
+				if len(w.target.Path) >= 2 {
+					member := w.target.Path[0]
+					t := fieldTypeOf(m, "LinuxResources", member)
+					if _, isPtr := t.(*types.Pointer); isPtr {
+						key := "staged/" + member
+						if !seen[key] {
+							seen[key] = true
+							okV := initView["Update:LinuxResources."+member]
+							okA := initAcc["Linux.Resources."+member] || initReply["update.[].Linux.Resources."+member]
+							c.ok("R14n", key, w.instr.Pos(), okV && okA, fmt.Sprintf("LinuxResources.%s is non-nil in the update request view and in every accumulator before updateResources writes through it", member),
+								fmt.Sprintf("updateResources writes through the copy's %s, but it is not initialised in the update request (%v) or in new accumulators (%v): Copy() keeps a nil member nil and the write dereferences it", member, okV, okA))
+						}
+					}
+				}
+				continue
+			default:
+				continue
+			}
+			// prefixes that are pointer- or map-typed
+			n := len(rel)
+			if w.kind == "mapupdate" || w.kind == "delete" {
+				n = len(rel) + 1 // the map itself must exist
+			}
+			for i := 1; i < n; i++ {
+				prefix := strings.Join(rel[:i], ".")
+				if strings.Contains(prefix, "[]") || strings.Contains(prefix, "{}") {
+					break
+				}
+				key := strings.ToLower(w.space) + "/" + pfx + prefix
+				if seen[key] {
+					continue
+				}
+				seen[key] = true
+				if !set[pfx+prefix] && readThrough[pfx+prefix] && w.space == "view" {
+					continue // the constructor dereferences it itself: a precondition on the runtime's request
+				}
+				c.ok("R14n", key, w.instr.Pos(), set[pfx+prefix], fmt.Sprintf("%s %s is initialised before %s writes through it", w.space, prefix, mf.fn.Name()),
+					fmt.Sprintf("%s writes through %s of the %s, which %s does not initialise: for a runtime request that leaves it unset the first plugin adjusting it crashes the runtime (nil dereference / assignment to entry in nil map)", mf.fn.Name(), prefix, w.space, where))
+			}
+		}
+	}
+}
+
+func fieldTypeOf(m *Module, typ, field string) types.Type {
+	st := m.structOf(pkgAPI, typ)
+	for i := 0; i < st.NumFields(); i++ {
+		if st.Field(i).Name() == field {
+			return st.Field(i).Type()
+		}
+	}
+	return nil
 }
